@@ -762,6 +762,11 @@ func c08LongRun(w *mon.W, _ int) {
 	longRun(w, calls, func() uint64 { return hashStrs(strs) }, "strings")
 }
 
+type c09Held struct {
+	b []byte
+	h uint64
+}
+
 func c09LongRun(w *mon.W, _ int) {
 	r := w.Rng
 	var srcs []string
@@ -778,6 +783,8 @@ func c09LongRun(w *mon.W, _ int) {
 	}
 	var encs []enc
 	var calls []lrCall
+	ring := make([]c09Held, 8192)
+	ringN := 0
 	for _, s := range srcs {
 		s := s
 		for q := 0; q < 2; q++ {
@@ -795,7 +802,22 @@ func c09LongRun(w *mon.W, _ int) {
 			encs = append(encs, e)
 			keep := append([]byte{}, e.b...)
 			held := e.b
-			calls = append(calls, lrCall{"New", fmt.Sprintf("New(%.50q, %d, %d)", s, from, to), func() uint64 { return gen.HashBytes(bitstr.New(s, int32(from), int32(to))) }, func() uint64 { return gen.HashBytes(keep) }},
+			calls = append(calls, lrCall{"New", fmt.Sprintf("New(%.50q, %d, %d)", s, from, to), func() uint64 {
+				// every encoding New returns is the caller's for good: the last 8192 results are kept and all of them
+				// are re-read every 2048 calls (an allocator that hands the same memory out twice shows here)
+				b := bitstr.New(s, int32(from), int32(to))
+				h := gen.HashBytes(b)
+				ring[ringN&8191] = c09Held{b, h}
+				ringN++
+				if ringN&2047 == 0 {
+					for _, x := range ring {
+						if x.b != nil && gen.HashBytes(x.b) != x.h {
+							return ^h // reported as a changed result
+						}
+					}
+				}
+				return h
+			}, func() uint64 { return gen.HashBytes(keep) }},
 				lrCall{"Len", fmt.Sprintf("Len(New(%.50q, %d, %d))", s, from, to), func() uint64 { return gen.Hash64(uint64(bitstr.Len(held)), gen.HashBytes(held)) }, func() uint64 { return gen.Hash64(uint64(len(e.text)), gen.HashBytes(keep)) }})
 		}
 	}
